@@ -88,7 +88,7 @@ std::string alloc_describe(size_t max) {
     std::string s; size_t n = 0; g_inhook = true;
     // deterministic description: sort by (api index, size)
     std::vector<std::pair<u64, size_t>> v; for (auto &e : *g_allocs) v.push_back(e.second);
-    std::sort(v.begin(), v.end());
+    std::sort(v.begin(), v.end()); std::reverse(v.begin(), v.end());     // newest first
     for (auto &e : v) { if (n++ >= max) break; s += strf("[call#%llu size=%zu]", (unsigned long long)e.first, e.second); }
     g_inhook = false; return s;
 }
@@ -317,3 +317,14 @@ int __wrap_fclose(FILE *fp) {
 extern "C" __attribute__((used)) const char *__asan_default_options() { return "exitcode=77:detect_leaks=0:allocator_may_return_null=1:max_allocation_size_mb=1024:detect_stack_use_after_return=0:symbolize=1"; }
 extern "C" __attribute__((used)) const char *__ubsan_default_options() { return "exitcode=77:print_stacktrace=1:halt_on_error=1"; }
 extern "C" __attribute__((used)) const char *__tsan_default_options() { return "exitcode=77:halt_on_error=0:report_signal_unsafe=0:allocator_may_return_null=1:max_allocation_size_mb=1024:history_size=4"; }
+
+// ---------------------------------------------------------------- hook H1: per-pass rule-loop accounting (C02 "bounded work")
+extern "C" NOTSAN void gr_verif_pass_loop(const void *, unsigned maxLoop, size_t slots0, long budget, size_t iterations) {
+    const size_t bound = size_t(maxLoop) * (slots0 + size_t(budget > 0 ? budget : 0) + 2);
+    ++sim::g_incallback;      // harness bookkeeping below must not be booked as library allocations
+    ++sim::g_probe["loop:passes-measured"];
+    if (bound) { u64 ppm = u64(iterations) * 1000000ull / bound; u64 &m = sim::g_maxstat["loop_ratio_ppm"]; if (ppm > m) m = ppm; }
+    if (iterations > bound)
+        sim::violation("C02:pass-loop-bound", strf("a pass ran its rule loop %zu times > maxRuleLoop %u x (slots %zu + insert budget %ld + 2) = %zu", iterations, maxLoop, slots0, budget, bound));
+    --sim::g_incallback;
+}
